@@ -500,8 +500,15 @@ def stepFilterOp (d : DState) (op : String) (toks impl : List String) : Option (
     let kv := parseKV rest
     let st ← mkInjected kind kv
     let hist := ((kv.vals "hist").getD []).map (fun v => [v])
+    let nospec := !(kind == "max" || kind == "min" || kind == "debounce" || kind == "schmitt")
+    -- a tap ring filled by hand to the brim IS the state a history reaches (those taps, in arrival order): there the
+    -- history-based specification applies again, so the meaning of the exported / injected taps is pinned down too
+    let (hist, nospec) := match st with
+      | .convolve c taps => if !c.isEmpty && taps.length == c.length then (taps.map (fun v => [v]), false) else (hist, nospec)
+      | .delay N taps => if 0 < N && taps.length == N then (taps.map (fun v => [v]), false) else (hist, nospec)
+      | _ => (hist, nospec)
     let d := (d.put id { st := st, hist := hist, base := (kv.nat "count").getD 0, tracked := kv.get "T" == some "tracked",
-                         nospec := !(kind == "max" || kind == "min" || kind == "debounce" || kind == "schmitt") }).flag "inject"
+                         nospec := nospec }).flag "inject"
     some (report d op { model := "ok", impl := implS })
   | "f" :: id :: args => do
     let id ← id.toNat?
